@@ -34,8 +34,8 @@ Print Assumptions c01_status_after_resume.
      - otherwise no run is active or waiting;
      - exited_on is set exactly for completed, failed and expired runs;
      - (presupposed by the statement) parents precede their children and nothing is left pushed.
-   Not covered by this theorem (see the level note): "the waiting run sits on a node whose router has a
-   wait", the path-walk clause and the event clause. *)
+   The other clauses - "the waiting run sits on a node whose router has a wait", the path walk, the events -
+   are covered by the theorems further down. *)
 From Verif Require Import proofs.EngineInv.
 
 Theorem c01_status_wellformed : forall s : session, reachable s -> status_wellformed s.
@@ -82,14 +82,17 @@ Print Assumptions c01_events_after_resume.
 (* Clause 3 (path walk), for histories over one store of validated definitions ([valid_assets]: every
    exit's destination is a node of its flow and case / default / timeout categories exist;
    [valid_cat_exits]: every category's exit is an exit of its node - what flow validation guarantees; the
-   boolean forms are checked on every generated asset store by the correspondence run):
-   every step of every run is on a node of the run's flow; a step's exit (when it has one) is an exit of
+   boolean forms are checked on every generated asset store by the correspondence run).  Both hypotheses are
+   needed: without them a category may name an exit the node does not have (the step then records an exit that
+   "belongs" to no node) or an exit may lead to a node that does not exist (a Go error).
+   Every step of every run is on a node of the run's flow; a step's exit (when it has one) is an exit of
    that node and leads to the node of the next step; only the last step may lack an exit. *)
 From Verif Require Import proofs.EngineNoErr proofs.EnginePaths.
 
 Theorem c01_path_walk : forall (a : assets) (s : session),
   valid_assets a -> valid_cat_exits a -> reachable_in a s ->
-  forall i r f, nth_error (s_runs s) i = Some r -> get_flow a (r_flow r) = Some f ->
+  forall i r, nth_error (s_runs s) i = Some r ->
+  exists f, get_flow a (r_flow r) = Some f /\          (* on an unchanged store the run's flow is always found *)
   forall k stp, nth_error (r_path r) k = Some stp ->
   exists n, get_node f (st_node stp) = Some n /\
     match st_exit stp with
@@ -97,26 +100,30 @@ Theorem c01_path_walk : forall (a : assets) (s : session),
     | Some eid => exists e, find_exit (n_exits n) eid = Some e /\
                   forall stp', nth_error (r_path r) (S k) = Some stp' -> e_dest e = Some (st_node stp')
     end.
-Proof. intros a s Hv Hvc Hr i r f Hi Hf k stp Hk. exact (reachable_paths a s Hv Hvc Hr i r f Hi Hf k stp Hk). Qed.
+Proof.
+  intros a s Hv Hvc Hr i r Hi. destruct (reachable_flows_known a s Hr i r Hi) as (f & Hf). exists f. split; [exact Hf|].
+  intros k stp Hk. exact (reachable_paths a s Hv Hvc Hr i r f Hi Hf k stp Hk).
+Qed.
 Print Assumptions c01_path_walk.
 
-(* Clause 2, second half: after a call (against a store of validated definitions) that returns without
-   error, every waiting run - there is exactly one when the session is waiting, none otherwise - is located
-   on a node of that store whose router has a wait ([path_location] is the model of run.PathLocation) *)
+(* Clause 2, second half: after a call (against any store) that returns without error, every waiting run - there
+   is exactly one when the session is waiting, none otherwise - is located on a node of that store whose router
+   has a wait ([path_location] is the model of run.PathLocation); no validity hypothesis is needed: the run
+   became waiting on a node the engine had just looked up in this store *)
 Theorem c01_waiting_run_on_wait_node : forall (a : assets) (s : session) (r : resume) (tmo : text) (x' : st),
-  valid_cat_exits a -> reachable s -> resume_session a s r tmo = Resumed (ROk x') ->
+  reachable s -> resume_session a s r tmo = Resumed (ROk x') ->
   forall i rn, nth_error (s_runs (session_ x')) i = Some rn -> r_status rn = RWaiting ->
   exists pos n, path_location a (session_ x') i = Some (pos, n) /\ wait_of n <> None.
 Proof.
-  intros a s r tmo x' Hv Hr H. apply (resume_waiting_on_wait a s r tmo x' Hv (reachable_post s Hr) H).
+  intros a s r tmo x' Hr H. apply (resume_waiting_on_wait a s r tmo x' (reachable_post s Hr) H).
 Qed.
 Print Assumptions c01_waiting_run_on_wait_node.
 
 Theorem c01_waiting_run_on_wait_node_start : forall (a : assets) (t : trigger) (flow : id) (x' : st),
-  valid_cat_exits a -> start a t flow = ROk x' ->
+  start a t flow = ROk x' ->
   forall i rn, nth_error (s_runs (session_ x')) i = Some rn -> r_status rn = RWaiting ->
   exists pos n, path_location a (session_ x') i = Some (pos, n) /\ wait_of n <> None.
-Proof. intros a t flow x' Hv H. apply (start_waiting_on_wait a t flow x' Hv H). Qed.
+Proof. intros a t flow x' H. apply (start_waiting_on_wait a t flow x' H). Qed.
 Print Assumptions c01_waiting_run_on_wait_node_start.
 
 (* Clause 5, first half: every event a run has recorded names, when it names a step, a step of that run:
